@@ -5,7 +5,7 @@ from __future__ import annotations
 from ..linform import lin, show_lin
 from ..program import AnalysisError
 from ..rules import calls, is_call, is_mcall, mcalls, mentions, mentions_any
-from ..terms import C, Evaluator, G, P, is_t, mk_proj, show, subterms, mk_cmp, mk_phi
+from ..terms import C, Evaluator, G, P, is_t, mk_proj, phi_paths, show, subterms, mk_cmp, mk_phi
 from .common import main_ret, Obs, arms_of, call0, choices_of, cond_has, ctor_fields, is_zero, retval_of, score_of, tuple_n
 from .distribution import is_tag
 
@@ -32,40 +32,6 @@ def elem(t):
 def analyse(obs: Obs, prog):
     # ---------------------------------------------------------------- the batch length is read off the first array leaf of a mapped argument: an argument
     # without leaves ((), None, {}) - which jax.vmap accepts - must not be indexed
-    import ast as _ast
-    _V = prog.cls("Vmap", "combinators/vmap.py")
-    _fn = _V.methods.get("_static_broadcast_dim_length")
-    if _fn is None:
-        raise AnalysisError("Vmap._static_broadcast_dim_length not found")
-    _par = {}
-    for _n in _ast.walk(_fn):
-        for _c in _ast.iter_child_nodes(_n):
-            _par[_c] = _n
-    _bad, _sites = [], 0
-    _leafvars = {}
-    for _n in _ast.walk(_fn):
-        if isinstance(_n, _ast.Assign) and isinstance(_n.value, _ast.Call) and _ast.unparse(_n.value.func).endswith("tree_leaves") and len(_n.targets) == 1 and isinstance(_n.targets[0], _ast.Name):
-            _leafvars[_n.targets[0].id] = _n
-    for _n in _ast.walk(_fn):
-        if isinstance(_n, _ast.Subscript) and isinstance(_n.slice, _ast.Constant) and _n.slice.value == 0:
-            base = _n.value
-            is_leaves = (isinstance(base, _ast.Call) and _ast.unparse(base.func).endswith("tree_leaves")) or (isinstance(base, _ast.Name) and base.id in _leafvars)
-            if not is_leaves:
-                continue
-            arg_txt = _ast.unparse(base.args[0]) if isinstance(base, _ast.Call) and base.args else (_ast.unparse(_leafvars[base.id].value.args[0]) if isinstance(base, _ast.Name) and _leafvars[base.id].value.args else "")
-            if arg_txt == "axis_sizes":
-                continue  # the final read over the collected sizes, validated non-empty by the jax.vmap call above
-            _sites += 1
-            guarded = False
-            cur = _n
-            while cur in _par:
-                cur = _par[cur]
-                if isinstance(cur, (_ast.If, _ast.IfExp)) and isinstance(base, _ast.Name) and base.id in _ast.unparse(cur.test):
-                    guarded = True
-            if not guarded:
-                _bad.append(f"line {_n.lineno}: {_ast.unparse(_n)[:60]}")
-    obs.add({"C11", "C04"}, "LEAF-GUARD", "Vmap._static_broadcast_dim_length/first-leaf", not _bad, construct="first array leaf of a mapped argument",
-            derived=f"unguarded {_bad}" if _bad else f"{_sites} first-leaf access(es), each under a test that the leaf list is non-empty", expected="an argument without array leaves is skipped, not indexed (IndexError)", where=f"{_V.module.rel}:{_fn.lineno}")
     V = prog.cls("Vmap", MOD)
     VT = prog.cls("VmapTrace", MOD)
     W = lambda c, m: f"{c.module.rel}:{c.methods[m].lineno}"
@@ -92,11 +58,30 @@ def analyse(obs: Obs, prog):
     rl = evl.eval_fn(V.methods["_static_broadcast_dim_length"], V.module, V)
     t = rl.ret
     okl = is_t(t, "proj") and t[2] == 0 and is_call(t[1], "tree_leaves") and is_t(t[1][2][0], "treemap") and t[1][2][0][2][1] == P("args")
+    unguarded, sites = [], 0
     if okl:
         body = t[1][2][0][1]
-        lf = mk_proj(("call", G("jax.tree_util.tree_leaves"), (("leaf", P("args")),), ()), 0)
-        ax = [x for x in subterms(body) if is_t(x, "leaf") and x[1] != P("args")]
-        okl = is_t(body, "phi") and body[3] == C(None) and len(ax) >= 1 and body[2] == ("index", ("attr", lf, "shape"), ax[0])
+        leaves_t = ("call", G("jax.tree_util.tree_leaves"), (("leaf", P("args")),), ())
+        lf = mk_proj(leaves_t, 0)
+        nonempty = lambda conds: any((c == leaves_t and pol) or (is_t(c, "cmp") and c[2] == ("call", G("len"), (leaves_t,), ()) and c[3] == C(0) and ((c[1] in (">", "!=") and pol) or (c[1] == "==" and not pol)))
+                                     for c, pol in conds)
+        sized = 0
+        for conds, leaf in phi_paths(body):
+            if leaf == C(None):
+                continue
+            ax = leaf[2] if is_t(leaf, "index") and leaf[1] == ("attr", lf, "shape") else None
+            # the size is read off the first array leaf of the mapped argument along ITS axis entry, only when that entry is not None
+            if not (is_t(ax, "leaf") and ax[1] != P("args") and (("is", ax, C(None)), False) in conds):
+                okl = False
+                continue
+            sized += 1
+            sites += 1
+            if not nonempty(conds):
+                unguarded.append(show(leaf)[:80] + " under " + ", ".join(("" if pol else "not ") + show(c)[:50] for c, pol in conds))
+        okl = okl and sized >= 1
+    # the batch length is read off the first array leaf of a mapped argument: an argument without leaves ((), None, {}) - which jax.vmap accepts - must not be indexed
+    obs.add({"C11", "C04"}, "LEAF-GUARD", "Vmap._static_broadcast_dim_length/first-leaf", bool(okl) and not unguarded, construct="first array leaf of a mapped argument",
+            derived=f"unguarded {unguarded}" if unguarded else (f"{sites} first-leaf access(es), each on a path where the leaf list is non-empty" if okl else t), expected="an argument without array leaves is skipped, not indexed (IndexError)", where=W(V, "_static_broadcast_dim_length"))
     obs.add({"C11", "C01", "C04"}, "TRACE-LENGTH", "Vmap._static_broadcast_dim_length", okl, derived=t, expected="first non-None of tree_map(axis, x -> x.shape[axis] if axis is not None else None, in_axes, args)", where=W(V, "_static_broadcast_dim_length"))
     # ---------------------------------------------------------------- accessors
     r = ev.eval_fn(VT.methods["get_retval"], VT.module, VT)
@@ -120,7 +105,7 @@ def analyse(obs: Obs, prog):
     r = ev.eval_fn(V.methods["generate"], V.module, V)
     w = W(V, "generate")
     pair = tuple_n(r.ret, 2, "Vmap.generate")
-    sub = ("call", ("attr", P("constraint"), "get_submap"), (elem(arange(DIM)),), ())
+    sub = ("call", P("constraint"), (elem(arange(DIM)),), ())
     inner = ("call", ("attr", GF, "generate"), (elem(split(P("key"), DIM)), sub, axel(P("args"))), ())
     got = [c for c in mcalls(r.ret, "generate") if c[1][1] == GF]
     obs.add({"C03", "C11"}, "IDX-ALIGN", "Vmap.generate/inner", len(got) == 1 and got[0] == inner, derived=got[0] if got else "none",
